@@ -19,10 +19,14 @@
      clone t            TElement.clone (positions passed on explicitly)
      flatten_seq seqs t the in-parse flattening of ProdSequence elements (values re-arranged, positions untouched)
      preorder t         TElement.find_all(exclude_root=False): the elements depth first
-     surviving t ks     the elements of the cleaned tree = elements ks of the raw tree (cleanup works in place) *)
+     surviving t ks     the elements of the cleaned tree = elements ks of the raw tree (cleanup works in place)
+     tobj, sstep, step, run_steps, final_state   (C04/Session.v) one parser object used several times on one text OBJECT:
+                        TStr / TLines / TIter = a str, a container of lines, an iterator over the lines still to come;
+                        steps SNew (re-bind), SEdit (in-place edit ESet / EIns / EDel / EFill), SNext, and the calls STok,
+                        SParse, SOrig k (get_orig_text(T) of the elements of the k-th result); edits_of / apply_edits *)
 From Coq Require Import ZArith List Bool.
 From AK Require Import Common.Err LLP.Base LLP.Parse LLP.Build gen.C04_Consts
-  C04.Model C04.LemmasText C04.LemmasLex C04.LemmasCover C04.LemmasTree C04.LemmasConc C04.LemmasNode C04.LemmasOps C04.Run.
+  C04.Model C04.LemmasText C04.LemmasLex C04.LemmasCover C04.LemmasTree C04.LemmasConc C04.LemmasNode C04.LemmasOps C04.Session C04.LemmasSess C04.Run.
 Import ListNotations.
 Open Scope Z_scope.
 
@@ -254,6 +258,115 @@ Proof.
 Qed.
 Print Assumptions api_node_exact.
 
+(* ------------------------------------------------------------------ one text object, used again after it changed *)
+(* (strengthening round 2: the seeded change C04-m6 kept the tokens of the last text OBJECT on the parser and
+   used them again when the same object - a list of lines edited in place - was parsed once more.)
+   In the model nothing is kept between two calls; the theorems below say what that means for a history of calls
+   and edits, and the correspondence check runs such histories against the implementation. *)
+
+(* a call leaves a str / a container of lines as it is ... *)
+Theorem call_leaves_text_object : forall cfg skip p fuel seqs st s, is_call s = true -> not_iter (s_obj st) ->
+  s_obj (snd (step cfg skip p fuel seqs st s)) = s_obj st.
+Proof. exact call_keeps_object. Qed.
+Print Assumptions call_leaves_text_object.
+
+(* ... and uses an iterator up: the next call on it sees no line (after a LexicalError for an unmatched
+   character: the lines behind the line of the error) *)
+Theorem iterator_used_up : forall cfg skip p fuel seqs spans ls,
+  let rest := match tok_call cfg (TIter ls) with LErr ps _ false => skipn (Z.to_nat (fst ps)) ls | _ => [] end in
+  s_obj (snd (step cfg skip p fuel seqs (mkSt (TIter ls) spans) STok)) = TIter rest /\
+  s_obj (snd (step cfg skip p fuel seqs (mkSt (TIter ls) spans) SParse)) = TIter rest.
+Proof. intros. split; [apply tok_consumes_iterator|apply parse_consumes_iterator]. Qed.
+Print Assumptions iterator_used_up.
+
+(* what a step gives depends on the state reached by the steps before it *)
+Theorem session_results_by_state : forall cfg skip p fuel seqs steps1 steps2 st,
+  run_steps cfg skip p fuel seqs st (steps1 ++ steps2) =
+  run_steps cfg skip p fuel seqs st steps1 ++ run_steps cfg skip p fuel seqs (final_state cfg skip p fuel seqs st steps1) steps2.
+Proof. exact run_steps_app. Qed.
+Print Assumptions session_results_by_state.
+
+(* a buffer of lines that stays the same object: whatever calls were made (tokenize, parse, get_orig_text of old
+   results, in any number and order), its contents are what the edits made of it ... *)
+Theorem buffer_after_session : forall cfg skip p fuel seqs steps ls spans,
+  forallb (fun s => negb (is_rebind s)) steps = true ->
+  s_obj (final_state cfg skip p fuel seqs (mkSt (TLines ls) spans) steps) = TLines (apply_edits (edits_of steps) ls).
+Proof. exact lines_after_steps. Qed.
+Print Assumptions buffer_after_session.
+
+(* ... and a tokenize call made at that moment gives the tokens of THOSE contents: each token the product of pattern
+   matches at exactly the reported positions of the present lines, get_orig_text(buffer) its matched characters *)
+Theorem session_tokens_exact : forall c, lexicon_ok (c_lex c) ->
+  forall skip p fuel seqs steps ls spans, forallb (fun s => negb (is_rebind s)) steps = true ->
+  let cur := apply_edits (edits_of steps) ls in
+  exists r, fst (step c skip p fuel seqs (final_state c skip p fuel seqs (mkSt (TLines ls) spans) steps) STok) = Some (RTok cur r) /\
+    r <> LHang /\
+    forall toks, r = LOk toks ->
+      exists body q, toks = body ++ [mkTok END_TOKEN [] q q] /\
+        Forall (fun t => plain_leaf (lex_matcher (c_lex c)) (cfg_span_of c) (cfg_syn c) (cfg_kw c) cur cur t \/
+                         span_leaf (lex_matcher (c_lex c)) (cfg_span_of c) (cfg_syn c) cur cur t) body.
+Proof.
+  intros c OK skip p fuel seqs steps ls spans H cur.
+  exists (cfg_tokenize c cur). split; [apply tok_after_steps; exact H|].
+  pose proof (lex_matcher_ok _ OK) as Hm. pose proof (cfg_spans_ok c) as Hs.
+  split; [apply tokenize_total; assumption|].
+  intros toks E.
+  destruct (leaf_text_l _ _ _ _ Hm Hs _ _ _ (prefix_refl_lines cur) E) as [body [q [E1 [F _]]]]. eauto.
+Qed.
+Print Assumptions session_tokens_exact.
+
+(* the same for a parse call: every element of the tree it returns delimits characters of the PRESENT contents *)
+Theorem session_tree_exact : forall c, lexicon_ok (c_lex c) ->
+  forall skip p fuel seqs, (forall s, mem s (p_sfxs p) = true -> mem s (p_terminals p) = false) ->
+  mem END_TOKEN skip = false ->
+  forall steps ls spans, forallb (fun s => negb (is_rebind s)) steps = true ->
+  let cur := apply_edits (edits_of steps) ls in
+  exists r, fst (step c skip p fuel seqs (final_state c skip p fuel seqs (mkSt (TLines ls) spans) steps) SParse) = Some (RParse cur r) /\
+    forall t, r = LOk (Ok t) -> cur <> [] ->
+      forall s, subtree s t ->
+        exists l0 c0 l1 c1, tree_span s = (P l0 c0, P l1 c1) /\ get_orig_text cur (tree_span s) = Ok (region cur l0 c0 l1 c1).
+Proof.
+  intros c OK skip p fuel seqs SF ES steps ls spans H cur.
+  exists (parse_call c skip p fuel seqs (TLines cur)). split; [apply parse_after_steps; exact H|].
+  pose proof (lex_matcher_ok _ OK) as Hm. pose proof (cfg_spans_ok c) as Hs.
+  intros t E NE s S. unfold parse_call, tok_call in E. cbn [obj_input tok_lines] in E.
+  destruct (cfg_tokenize c cur) as [toks| |] eqn:T; try discriminate.
+  destruct (p_parse p fuel (drop_skipped skip toks)) as [t0|] eqn:PP; [|discriminate].
+  assert (t = flatten_seq seqs t0) by congruence. subst t.
+  destruct (leaf_text_l _ _ _ _ Hm Hs _ _ _ (prefix_refl_lines cur) T) as [body [q [E1 _]]].
+  assert (NN : drop_skipped skip toks <> []).
+  { subst toks. unfold drop_skipped. rewrite filter_app. cbn [filter].
+    replace (mem (tname (end_tok q)) skip) with false by (symmetry; exact ES). cbn [negb].
+    intro A. apply app_eq_nil in A. destruct A as [_ A]. discriminate. }
+  unfold p_parse in PP. destruct (parse_covers _ _ _ _ SF _ _ _ NN PP) as [j C].
+  apply (flatten_covers_l _ seqs) in C.
+  destruct (covers_subtree _ _ _ S _ _ C) as [i' [j' [C' _]]].
+  eapply node_text_l; eauto using prefix_refl_lines.
+Qed.
+Print Assumptions session_tree_exact.
+
+(* get_orig_text slices the text it is GIVEN and looks at nothing but the lines from the element's start line to its
+   end line: two texts that agree there give the same characters *)
+Theorem orig_text_is_local : forall (a b : list line) sp,
+  (forall i, (Z.to_nat (fst (fst sp) - 1) <= i <= Z.to_nat (fst (snd sp) - 1))%nat -> nth_error a i = nth_error b i) ->
+  get_orig_text a sp = get_orig_text b sp.
+Proof. exact get_orig_text_local. Qed.
+Print Assumptions orig_text_is_local.
+
+(* an element returned BEFORE the buffer was edited: if it ends above the line that is replaced / inserted / deleted,
+   get_orig_text(edited buffer) still gives its characters; replacing a line outside its lines changes nothing either *)
+Theorem stale_element_above_edit : forall e i ls sp, edit_index e = Some i ->
+  (Z.to_nat (fst (snd sp) - 1) < i)%nat -> (Z.to_nat (fst (snd sp) - 1) < length ls)%nat ->
+  get_orig_text (apply_edit e ls) sp = get_orig_text ls sp.
+Proof. exact edit_below_keeps_text. Qed.
+Print Assumptions stale_element_above_edit.
+
+Theorem stale_element_line_replaced_elsewhere : forall i l ls sp,
+  (i < Z.to_nat (fst (fst sp) - 1) \/ Z.to_nat (fst (snd sp) - 1) < i)%nat ->
+  get_orig_text (apply_edit (ESet i l) ls) sp = get_orig_text ls sp.
+Proof. exact set_outside_keeps_text. Qed.
+Print Assumptions stale_element_line_replaced_elsewhere.
+
 (* ------------------------------------------------------------------ the harness lexicon *)
 (* the concrete matcher compared with re on every run meets the hypotheses, for every lexicon
    whose literals are non-empty and every span table *)
@@ -395,3 +508,39 @@ Example witness_sequence :
   end.
 Proof. vm_compute. repeat split. Qed.
 Print Assumptions witness_sequence.
+
+(* the situation of the seeded change C04-m6: E -> WORD NUM on the buffer ["ab 12"; "cd"]; the first line is replaced
+   in place by "  foo 3" and the SAME list is parsed again: the new tree spans "foo 3" ((1,3),(1,8)); the elements of
+   the old tree, asked for their text in the edited buffer, give the characters between their old positions *)
+Example witness_buffer_edited_in_place :
+  let W := [87;79;82;68] in let N := [78;85;77] in
+  let ug := [([69], [[W; N]])] in
+  let skip := [[83;80;65;67;69]; [67;79;77;77;69;78;84]] in
+  match build ug (cfg_terminals demo_cfg) true [69] with
+  | Ok p =>
+      match run_steps demo_cfg skip p 10 [] (mkSt (TLines [[97;98;32;49;50]]) [])
+              [SParse; SEdit (ESet 0 [32;32;102;111;111;32;51]); SParse; SOrig 0] with
+      | [RParse _ (LOk (Ok t1)); RParse ol (LOk (Ok t2)); ROrig true txs] =>
+          tree_span t1 = ((1, 1), (1, 6)) /\ tree_span t2 = ((1, 3), (1, 8)) /\
+          ol = [[32;32;102;111;111;32;51]] /\
+          map (fun s => get_orig_text ol (tree_span s)) (preorder t2) = [Ok [102;111;111;32;51]; Ok [102;111;111]; Ok [51]] /\
+          txs = [Ok [32;32;102;111;111]; Ok [32;32]; Ok [111;111]]
+      | _ => False
+      end
+  | _ => False
+  end.
+Proof. vm_compute. repeat split. Qed.
+Print Assumptions witness_buffer_edited_in_place.
+
+(* an iterator handed over twice: the second call sees no line: only $END$ at (1,1); after a LexicalError on line 2
+   the next call gets line 3 as its line 1 *)
+Example witness_iterator_twice :
+  match run_steps demo_cfg [] (mkParser [] [] [] [] (make_tables [] [] [])) 0 [] (mkSt (TIter [[97;98]; [99]]) []) [STok; STok],
+        run_steps demo_cfg [] (mkParser [] [] [] [] (make_tables [] [] [])) 0 [] (mkSt (TIter [[97]; [64]; [32;98]]) []) [STok; STok] with
+  | [RTok _ (LOk [a; b; e]); RTok _ (LOk [e'])], [RTok _ (LErr ps _ false); RTok ol (LOk [sp; b'; e''])] =>
+      (tstart e', tend e') = ((1, 1), (1, 1)) /\ tname e' = END_TOKEN /\ fst ps = 2 /\
+      ol = [[32;98]] /\ (tstart b', tend b') = ((1, 2), (1, 3))
+  | _, _ => False
+  end.
+Proof. vm_compute. repeat split. Qed.
+Print Assumptions witness_iterator_twice.
